@@ -936,6 +936,15 @@ pub fn run(out: &mut Out, tier: &str, seed: u64, prop: &str) {
                         }
                     }
                 }
+                // `extra` comparisons whose right-hand side is not a valid extra name are kept verbatim: the same quote
+                // characters there, under both operators, alone and inside and/or
+                for val in ["it's", "O'Neil", "x\"y", "a'", "'", "\"", "a' or extra == 'b", "Not An Extra!", "a b"] {
+                    for neg in [false, true] {
+                        shapes.push(Term::X(neg, val.into()));
+                        shapes.push(Term::and(Term::X(neg, val.into()), Term::S(1, 0, "posix".into())));
+                        shapes.push(Term::or(Term::X(neg, val.into()), Term::X(false, "dev".into())));
+                    }
+                }
                 for t in shapes {
                     let Some(tree) = try_build(out, "C05", &t) else { return };
                     let d = dump(&tree);
